@@ -440,12 +440,22 @@ def history_s(draw, pid, tier, conf=None, max_clients=None, distinct_ids=False, 
                 i = draw(st.integers(0, len(svcs) - 1))
                 svcs[i] = [svcs[i][0], draw(st.sampled_from(proto.PROTOCOLS))]
             events.insert(draw(st.integers(1, len(events))), ["reconf", {"services": [list(x) for x in svcs]}])
+    # a nick may be sent again with nothing but its capitalisation changed
+    ns = [e_ for e_ in events if e_[0] == "n" and len(e_) > 2]
+    if len(ns) >= 2 and draw(st.integers(0, 2)) == 0:
+        same = [(a_, b_) for a_ in ns for b_ in ns if a_ is not b_ and a_[1] == b_[1]]
+        if same:
+            a_, b_ = same[0]
+            b_[2] = a_[2].swapcase()
     if pid in ("C01", "C02", "C03", "C10") and events and draw(st.integers(0, 11)) == 0:
         # the operator edits iauth.timeout and reloads while requests are pending: requests keep the timer (or the
         # absence of one) they were announced with, new ones follow the new setting
         for _ in range(draw(st.integers(1, 2))):
             events.insert(draw(st.integers(1, len(events))), ["reconf", {"timeout": draw(st.sampled_from([0, 0, 30, 45]))}])
-    return {"conf": conf, "events": events}
+    case = {"conf": conf, "events": events}
+    if pid in ("C01", "C02", "C03", "C05", "C06", "C09", "C10", "default") and draw(st.integers(0, 7)) == 0:
+        case["crlf"] = True        # this server ends its lines with CR LF
+    return case
 
 
 # ---------------------------------------------------------------------------
@@ -526,6 +536,8 @@ def policies_of(banner):
 def run_lockstep(case, workdir, stop_on_violation=False, spec_hook=None):
     conf = proto.Conf(case["conf"])
     d = dm.Daemon(conf_text(case["conf"]), workdir)
+    if case.get("crlf"):
+        d.eol = b"\r\n"
     tr = Trace()
     try:
         try:
